@@ -175,7 +175,24 @@ func c15Enumerate(f func(c c15Case, baseline bool) bool) {
 			if !f(c15Case{name, append([]string{}, dts...)}, true) {
 				return
 			}
-			if n < minIn || (n > maxIn && name != "Concat") {
+			if n > maxIn && name != "Concat" {
+				// a list that is too long stays too long when its surplus entries (or everything
+				// from the first optional position on) are absent inputs
+				for _, from := range []int{maxIn, minIn} {
+					if from >= n {
+						continue
+					}
+					v := append([]string{}, dts...)
+					for i := from; i < n; i++ {
+						v[i] = "nil"
+					}
+					if !f(c15Case{name, v}, false) {
+						return
+					}
+				}
+				continue
+			}
+			if n < minIn {
 				continue
 			}
 			for p := 0; p < n; p++ {
